@@ -1,6 +1,17 @@
-import KoordVerif.Proofs.C19ExtQuota4
+import KoordVerif.Proofs.C19ExtQuota5
 /-
 C19 (elasticquota part): the ledger rebuilt by a restart equals the live ledger after its next migration tick.
+
+  quota_rebuilt_eq_live            the full statement (every okHist history, every isDelivery delivery)
+  quota_live_canon                 the live ledger after the tick is the from-scratch ledger `Canon`
+  quota_rebuild_order_independent  two deliveries of the same objects give the same ledger
+  …_counterexample                 one decided witness per hypothesis clause showing it cannot be dropped
+
+Route: Proofs/C19ExtQuota1 (primitives, sums, GetQuotaName order independence, Canon × Canon → LedgerEq),
+C19ExtQuota2 (delivery side: `DInv`, coverage, store/known, `okOrderM_of_okOrder`: a migration tick inside a
+delivery finds nothing to move, `fresh_canon`), C19ExtQuota3 (`LiveInv`, MigratePod, `LiveInv_migrateAll`),
+C19ExtQuota4 (quota handlers, ReplaceQuotas, pod add / delete, Reserve / Unreserve keep `LiveInv`),
+C19ExtQuota5 (OnPodUpdate keeps `LiveInv`).
 -/
 namespace KoordVerif.C19.Quota
 
@@ -14,8 +25,8 @@ theorem quota_rebuild_order_independent (live : St) (w : World) (d1 d2 : List Op
     (hsu : storeUnique live.store = true) (hnd : NodupIds w.alive) (hnn : ∀ o ∈ w.alive, 0 ≤ o.req)
     (h1 : isDelivery live w d1 = true) (h2 : isDelivery live w d2 = true) :
     LedgerEq (run {} (d1 ++ [.migrate])) (run {} (d2 ++ [.migrate])) := by
-  obtain ⟨c1, e1⟩ := fresh_canon h1 hnd hnn
-  obtain ⟨c2, e2⟩ := fresh_canon h2 hnd hnn
+  obtain ⟨c1, e1⟩ := fresh_canon h1 hsu hnd hnn
+  obtain ⟨c2, e2⟩ := fresh_canon h2 hsu hnd hnn
   obtain ⟨s1, k1⟩ := fresh_facts h1 hsu
   obtain ⟨s2, k2⟩ := fresh_facts h2 hsu
   rw [e1, e2]
@@ -55,7 +66,7 @@ theorem quota_rebuilt_eq_live_of_inv (hist d : List Op) (h : okHist hist = true)
     LedgerEq (run {} (hist ++ [.migrate])) (run {} (d ++ [.migrate])) := by
   obtain ⟨hrv, hcut⟩ := okHistFrom_end hist {} {} h
   obtain ⟨_, cL, kL, stL⟩ := LiveInv_migrateAll hinv
-  obtain ⟨cF, eF⟩ := fresh_canon hd hinv.nd hinv.nn
+  obtain ⟨cF, eF⟩ := fresh_canon hd hinv.su hinv.nd hinv.nn
   obtain ⟨sF, kF⟩ := fresh_facts hd hinv.su
   rw [eF, run_append]
   show LedgerEq (migrateAll (run {} hist)) (run {} d)
@@ -72,18 +83,45 @@ theorem quota_rebuilt_eq_live_of_inv (hist d : List Op) (h : okHist hist = true)
   rw [stL]
   exact quotaNameOf_congr sF (storeUnique_nss hinv.su) p
 
-/-- every guarded step except a pod update keeps the live invariant (Proofs/C19ExtQuota4) -/
-theorem liveStep_of_pupd (hpupd : ∀ o n, LiveStepOK (.pupd o n)) : ∀ op, LiveStepOK op
+/-- every guarded step keeps the live invariant (Proofs/C19ExtQuota4, C19ExtQuota5) -/
+theorem liveStep_ok : ∀ op, LiveStepOK op
   | .qstore q => step_qstore_ok q
   | .qput q => step_qput_ok q
   | .qdel n => step_qdel_ok n
   | .replace => step_replace_ok
   | .padd p => step_padd_ok p
-  | .pupd o n => hpupd o n
+  | .pupd o n => step_pupd_ok o n
   | .pdel p => step_pdel_ok p
   | .resv p => step_resv_ok p
   | .unresv p => step_unresv_ok p
   | .migrate => step_migrate_ok
+
+/-- the live invariant holds at every cut of a history that satisfies the step guards -/
+theorem liveInv_of_okHist (hist : List Op) (h : okHist hist = true) :
+    LiveInv (run {} hist) (worldAfter hist) :=
+  LiveInv_run liveStep_ok hist {} {} LiveInv_init h
+
+/-- the live ledger after its next migration tick is the canonical ledger of the objects -/
+theorem quota_live_canon (hist : List Op) (h : okHist hist = true) :
+    Canon (run {} (hist ++ [.migrate])) (worldAfter hist) := by
+  rw [run_append]
+  exact (LiveInv_migrateAll (liveInv_of_okHist hist h)).2.1
+
+/-- **C19, elasticquota part**: for every live history satisfying the decidable hypotheses and every delivery of
+    the final objects to a fresh scheduler (duplicates allowed, any order in which every pod's resolution is final
+    when it is delivered), the rebuilt ledger equals the live ledger after its next migration tick. -/
+theorem quota_rebuilt_eq_live (hist d : List Op) (h : okHist hist = true)
+    (hd : isDelivery (run {} hist) (worldAfter hist) d = true) :
+    LedgerEq (run {} (hist ++ [.migrate])) (run {} (d ++ [.migrate])) :=
+  quota_rebuilt_eq_live_of_inv hist d h hd (liveInv_of_okHist hist h)
+
+/-- corollary: two deliveries after the same live history give the same ledger -/
+theorem quota_rebuild_order_independent' (hist d1 d2 : List Op) (h : okHist hist = true)
+    (h1 : isDelivery (run {} hist) (worldAfter hist) d1 = true)
+    (h2 : isDelivery (run {} hist) (worldAfter hist) d2 = true) :
+    LedgerEq (run {} (d1 ++ [.migrate])) (run {} (d2 ++ [.migrate])) :=
+  have hi := liveInv_of_okHist hist h
+  quota_rebuild_order_independent _ _ d1 d2 hi.su hi.nd hi.nn h1 h2
 
 /-! ### examples -/
 
@@ -99,10 +137,12 @@ def p2 : PodObj := { id := 2, label := 0, ns := 7, req := 50, node := false, ter
 /-- no label, lives in the namespace named like quota 3 -/
 def p3 : PodObj := { id := 3, label := 0, ns := 3, req := 10, node := true, term := false, rv := 1 }
 def p4 : PodObj := { id := 4, label := 5, ns := 9, req := 7, node := false, term := false, rv := 1 }
+/-- labelled with quota 5, deleted while still parked in the default group -/
+def p5 : PodObj := { id := 5, label := 5, ns := 9, req := 3, node := true, term := false, rv := 1 }
 
 def hist : List Op :=
-  [.padd p1, .qput qA, .migrate, .qput qB, .padd p2, .resv p1, .pupd p1 p1b, .padd p3, .padd p4, .pdel p3,
-   .qput qC, .migrate, .pdel p4, .qdel 5]
+  [.padd p1, .qput qA, .migrate, .qput qB, .padd p2, .resv p1, .pupd p1 p1b, .padd p3, .padd p4, .padd p5,
+   .pdel p3, .qput qC, .pdel p5, .migrate, .pdel p4, .qdel 5]
 /-- quotas through ReplaceQuotas, pod 2 twice, a tick in the middle -/
 def deliv : List Op := [.qstore qB, .qstore qA, .replace, .padd p2, .migrate, .padd p1b, .padd p2]
 def deliv2 : List Op := [.qput qA, .padd p1b, .qput qB, .padd p2]
@@ -136,6 +176,21 @@ theorem quota_delivery_order_counterexample :
     okHist hist = true ∧ d.all (isDeliveryOp (run {} hist).store (worldAfter hist).alive) = true ∧
     okOrderFrom {} (run {} d) false d = false ∧
     hasE (run {} (hist ++ [.migrate])) 7 1 = true ∧ hasE (run {} (d ++ [.migrate])) 7 1 = false ∧
+    hasE (run {} (d ++ [.migrate])) 4 1 = true := by decide
+
+/-- the `isDelivery` clause "no quota object is named like a built-in group": with a quota NAMED like the default
+    group a pod's resolution can leave the default group and come back during the delivery, and a migration tick
+    in between moves the pod away for good -/
+theorem quota_builtin_name_counterexample :
+    let q1 : QObj := { name := 1, own := true, nss := [] }
+    let q4 : QObj := { name := 4, own := false, nss := [1] }
+    let p : PodObj := { id := 1, label := 0, ns := 1, req := 50, node := false, term := false, rv := 1 }
+    let hist : List Op := [.qput q1, .qput q4, .padd p]
+    let d : List Op := [.padd p, .qput q4, .migrate, .qput q1]
+    okHist hist = true ∧ isDelivery (run {} hist) (worldAfter hist) d = false ∧
+    d.all (isDeliveryOp (run {} hist).store (worldAfter hist).alive) = true ∧
+    okOrderFrom {} (run {} d) false d = true ∧
+    hasE (run {} (hist ++ [.migrate])) 1 1 = true ∧ hasE (run {} (d ++ [.migrate])) 1 1 = false ∧
     hasE (run {} (d ++ [.migrate])) 4 1 = true := by decide
 
 /-- the cut hypothesis added to `okHistFrom`: a quota whose handler is still pending (`qstore` only) is not known
